@@ -13,4 +13,17 @@ def encodingClasses : List (String × String) := [("ByteArray", "ByteArrayEncodi
 /-- keys `StringArrayEncoding.serialize` writes / `StringArrayEncoding.deserialize` reads (it does not use the name maps). -/
 def stringArrayWritten : List String := ["kind", "dataEncoding", "stringData", "offsets", "offsetEncoding"]
 def stringArrayRead : List String := ["dataEncoding", "offsetEncoding", "offsets", "stringData"]
+/-- `_find_best_integer_compression`: the three loop domains, the encoding classes in the order a chain is extended, and the
+`later = earlier + [encoding]` steps (regenerated from compress.py with `ast`). -/
+def deltaDomain : List Bool := [false, true]
+def rleDomain : List Bool := [false, true]
+def packDomain : List (Option Nat) := [none, some 1, some 2]
+def stageOrder : List String := ["DeltaEncoding", "RunLengthEncoding", "IntegerPackingEncoding", "ByteArrayEncoding"]
+def chainExtends : List (String × String) := [("encodings_after_rle", "encodings_after_delta"), ("encodings_after_packing", "encodings_after_rle"), ("encodings", "encodings_after_packing")]
+/-- `_to_smallest_integer_type`: the unsigned and the signed type ladder, in the order tried. -/
+def unsignedLadder : List String := ["u8", "u16", "u32", "u64"]
+def signedLadder : List String := ["i8", "i16", "i32", "i64"]
+/-- `_get_decimal_places`: `if decimals > N: return None`; `_compress_data`: `len(array) == N` takes the uncompressed path. -/
+def maxDecimals : Int := 18
+def singleValueLength : Nat := 1
 end BiotiteModel.Gen.C05
